@@ -70,14 +70,15 @@ class C02(Prop):
                 # obtained its validators - they are then no longer the file's CURRENT validators
                 "modify": t.choice([None, None, None, None, 0.3, 1.0, 5.0]),
                 # sub-second part of the file's mtime (HTTP dates round it) and a caller-owned Headers object shared by all responses of the run
-                "mtime_frac": t.choice([0.0, 0.0, 0.5, 0.25, 0.9999996, 0.999999]), "shared_headers": t.draw(3) == 0}
+                "mtime_frac": t.choice([0.0, 0.0, 0.5, 0.25, 0.9999996, 0.999999]), "shared_headers": t.draw(3) == 0,
+                "http_version": t.choice(["1.1", "1.1", "1.0", "2"])}
 
     def nontrivial(self, plan, ctx, variant):
         return plan["range"] is not None and (ctx.notes.get("emissions", 0) >= 3 or bool(ctx.faults))
 
     # -- one request -------------------------------------------------------------
     def _request(self, plan, ctx, method, headers, rel):
-        req = AbstractRequest(method, "/f", headers=headers, body=b"")
+        req = AbstractRequest(method, "/f", headers=headers, body=b"", http_version=plan.get("http_version", "1.1"))
         random.seed(424242)   # the multipart boundary must coincide for GET and HEAD
         if plan["iface"] == "wsgi":
             from baize.wsgi import FileResponse
